@@ -241,4 +241,47 @@ theorem smallSetRemove_spec (l : List Nat) (v : Nat) (hnd : l.Nodup) :
       rw [hp]
     exact swapRemoveAt_spec l i v hnd this
 
+/-! ### `release_self`: the `claimed_twice` (hand-back) branch -/
+
+/-- The sync entry of a re-claimed key after it has been handed back to its transfer target;
+    `aw` is the new `anyone_waiting` flag. -/
+def handedBack (st : SyncState) (aw : Bool) : SyncState :=
+  { st with claimedTwice := false, owner := .transferred, anyoneWaiting := aw }
+
+/-- The two outcomes of the `claimed_twice` branch of `release_self` (salsa e06010e):
+    * QUIET: nobody waits, or the releasing thread owns the key's transfer target — only the sync entry
+      changes (`anyone_waiting` keeps its value);
+    * WAKE: somebody waits and the transfer chain does not resolve to the releasing thread —
+      `anyone_waiting` is cleared and the dependents of the key are woken. -/
+theorem releaseSelf_handback_cases {s s' : State} {t k : Nat} {st : SyncState}
+    (hk : s.sync k = some st) (hct : st.claimedTwice = true) (h : releaseSelf s t k = some s') :
+    ((st.anyoneWaiting = false ∨
+        isOwnerOfTransferredQuery { s with sync := upd s.sync k (some (handedBack st st.anyoneWaiting)) } k t
+          = some true) ∧
+      s' = { s with sync := upd s.sync k (some (handedBack st st.anyoneWaiting)) }) ∨
+    (st.anyoneWaiting = true ∧
+      isOwnerOfTransferredQuery { s with sync := upd s.sync k (some (handedBack st st.anyoneWaiting)) } k t
+        = some false ∧
+      unblockRuntimesBlockedOn { s with sync := upd s.sync k (some (handedBack st false)) } k .completed
+        = some s') := by
+  unfold releaseSelf at h
+  simp only [hk, hct, if_true] at h
+  cases haw : st.anyoneWaiting with
+  | false =>
+    simp only [haw, Bool.false_eq_true, if_false, Option.some.injEq] at h
+    refine Or.inl ⟨Or.inl rfl, ?_⟩
+    rw [← h]; simp only [handedBack]
+  | true =>
+    simp only [haw, if_true] at h
+    simp only [handedBack]
+    split at h
+    · cases h
+    · next ho => exact Or.inl ⟨Or.inr ho, (Option.some.inj h).symm⟩
+    · next ho => exact Or.inr ⟨trivial, ho, h⟩
+
+/-- `is_owner_of_transferred_query` only reads `transferred` (and the ghost fuel). -/
+theorem isOwnerOfTransferredQuery_congr {s s' : State} (k t : Nat) (ht : s'.transferred = s.transferred)
+    (hb : s'.bound = s.bound) : isOwnerOfTransferredQuery s' k t = isOwnerOfTransferredQuery s k t := by
+  simp only [isOwnerOfTransferredQuery, threadIdOfTransferredQuery, ht, hb]
+
 end SalsaVerif.Proofs.SyncDG
